@@ -100,6 +100,21 @@ func c18Units(tier string) []*Unit {
 		{Name: "a", RawLines: []string{"vars:", "  Y: {sh: 'echo val'}"}, Cmds: []C{{Extra: "{{.Y}}"}}},
 		{Name: "b", RawLines: []string{"vars:", "  Y: {sh: 'echo val'}"}, Cmds: []C{{Extra: "{{.Y}}"}}},
 	}}, vlab.Options{})
+	// prefixed output with the commands announced ("task: [a] ..." goes through the logger while
+	// another task's output lines go through the prefix writer, which colours the prefix with the
+	// same logger)
+	add("prefixed-output-with-announced-commands", &Prog{Tasks: []*T{
+		{Name: "root", Deps: []Ref{D("a"), D("b")}},
+		{Name: "a", Prefix: "A", Cmds: []C{P(), P()}},
+		{Name: "b", Prefix: "B", Cmds: []C{P(), P()}},
+	}}, vlab.Options{Output: "prefixed", NotSilent: true})
+	// a parent called twice in parallel, each of its dependency / task-call entries passing only
+	// constant variables (to a wildcard task, which gets MATCH set on the call's variables)
+	add("constant-call-vars-of-a-parent-compiled-twice-in-parallel", &Prog{Tasks: []*T{
+		{Name: "root", Deps: []Ref{{Task: "p", Vars: [][2]string{{"V", "1"}}}, {Task: "p", Vars: [][2]string{{"V", "2"}}}}},
+		{Name: "p", Deps: []Ref{{Task: "q-*", As: "q-x", VP: "=", Vars: [][2]string{{"K", "const"}}}}, Cmds: []C{{Extra: "{{.V}}"}}},
+		{Name: "q-*", Cmds: []C{{Extra: "{{.K}}"}}},
+	}}, vlab.Options{})
 	// output wrappers through the executor
 	for _, mode := range []string{"group", "prefixed"} {
 		u := c17Exec(mode, mode == "group", "quick")
@@ -143,6 +158,7 @@ func c18Units(tier string) []*Unit {
 		dedicated := map[string]bool{"defer-same-task-parallel": true, "matrix-ref-parallel-deps": true, "dynvars-parallel": true,
 			"once-failing-two-callers": true, "c17-executor-group": true, "c17-executor-prefixed": true, "reader-sibling-includes": true, "reader-diamond-dirs-dynvar": true,
 			"shared-set-and-shopt-lists-parallel": true, "missing-tasks-resolved-in-parallel": true,
+			"prefixed-output-with-announced-commands": true,
 			"c17-direct-group-two-writers-per-command": true, "c17-direct-prefixed-two-writers-per-command": true}
 		heavy := map[string]bool{"c01-twolevel-cancel": true, "c01-nested-call-in-dep-N1": true, "c07-fail-nested-N2": true}
 		switch {
